@@ -377,13 +377,17 @@ func metaHeaders(r *s3x.Resp) []string {
 }
 
 // known finding: the fs backends write object file and metadata file separately and in place
-func c15Classify(k backends.Kind, ds []disc) []disc {
+func c15Classify(cs c15Case, ds []disc) []disc {
+	k := cs.Backend
+	// a delete is not part of the finding: removing the object's file is its one commit point
+	// (what is left of the metadata is not served without the file)
+	del := cs.Target >= 0 && cs.Target < len(cs.Ops) && (cs.Ops[cs.Target].K == "del" || cs.Ops[cs.Target].K == "mdel")
 	for i := range ds {
 		if !k.IsFs() {
 			continue
 		}
 		switch {
-		case ds[i].Kind == "in-flight-write-mixed-versions" || ds[i].Kind == "in-flight-write-neither-old-nor-new":
+		case (ds[i].Kind == "in-flight-write-mixed-versions" || ds[i].Kind == "in-flight-write-neither-old-nor-new") && !del:
 			ds[i].KF = "KF-C15-fs-crash-atomicity"
 		case ds[i].Kind == "phantom-key-after-crash" && strings.Contains(ds[i].Detail, ".modtime-resolution"):
 			ds[i].KF = "KF-C15-fs-crash-atomicity"
@@ -723,7 +727,7 @@ func c15Replay(check string, raw json.RawMessage) ([]disc, error) {
 	switch check {
 	case "crash":
 		ds, _ := c15Crash(cs)
-		return c15Classify(cs.Backend, ds), nil
+		return c15Classify(cs, ds), nil
 	case "bolt-snapshots":
 		ds, _ := c15BoltSnapshots(cs.BoltOps)
 		return ds, nil
@@ -1050,7 +1054,7 @@ func c15Run(t *testing.T, c *evid.Collector) {
 					labels = append(labels, "before:"+strings.Fields(trace[kk])[0])
 				}
 				c.Case(evid.FP("crash", mustJSON(cs)), inside || kk > 0, func() interface{} { return cs }, labels...)
-				report(c, "crash", c15Classify(k, ds), cs)
+				report(c, "crash", c15Classify(cs, ds), cs)
 			}
 		}
 	}
@@ -1088,7 +1092,7 @@ func c15Run(t *testing.T, c *evid.Collector) {
 			cs.K = kk
 			ds, inside := c15Crash(cs)
 			c.Case(evid.FP("crash", mustJSON(cs)), inside || kk > 0, func() interface{} { return cs }, "check:crash", "backend:"+string(k), "src:random")
-			if report(c, "crash", c15Classify(k, ds), cs) {
+			if report(c, "crash", c15Classify(cs, ds), cs) {
 				rt.Fatalf("C15 violated: %v", ds)
 			}
 		}
